@@ -152,3 +152,51 @@ def ob_driver_survives(f0: bool, f1: bool, f2: bool) -> str:
     if rounds != [0, 1, 2]:
         return "rounds attempted: %r" % (rounds,)
     return "ok" if (f0 or f1 or f2) else "ok-nofault"
+
+
+@obligation(funcs=["storage.db.QueryGarbageCollector.collect", "storage.db.DBStorage.add_event", "storage.db.DBStorage.process_tags"],
+            params=range(4), timeout=(280, 1200),
+            bounds="SQL backend on the engine model: store of 2 events (kind from {1,19999,20000,29999,30000}, expiration tag by "
+                   "selector from {none, T-1, T, T+1, far future, malformed, empty, fewer digits, digit-prefixed text}); one "
+                   "collector pass at T (PARAM): exactly the ephemeral kinds and the well-formed expired timestamps are removed, "
+                   "with their tag rows")
+def ob_sql_gc_pass(k0: int, x0: int, k1: int, x1: int) -> str:
+    """
+    pre: 0 <= k0 < 5 and 0 <= k1 < 5 and 0 <= x0 < 9 and 0 <= x1 < 9
+    pre: THOROUGH or (k1 == 0 and x0 in (0, 1, 3))
+    post: _.startswith("ok")
+    """
+    logging.disable(logging.CRITICAL)
+    from harness import _sqlstore as S
+    from nostr_relay.storage import db as D
+    st = S.make_store()
+    evs = []
+    exp = EXP + ("2031-01-01",)
+    for (i, k, x) in ((0, k0, x0), (1, k1, x1)):
+        val = pick(exp, x)
+        kind = pick((1, 19999, 20000, 29999, 30000), k)
+        tags = [["e", "x"]] + ([["expiration", val]] if val is not None else [])
+        ev = S.evj(i, False, kind, 10 + i, tags)
+        S.drive(st.add_event(dict(ev)))
+        evs.append((ev, val, kind))
+    D.time = lambda: T
+    gc = D.QueryGarbageCollector(st)
+    conn_ctx = st.db.begin()
+    conn = S.drive(conn_ctx.__aenter__())
+    S.drive(gc.collect(conn))
+    S.drive(conn_ctx.__aexit__(None, None, None))
+    after = [r["id"] for r in S.rows(st)]
+    err = S.tags_coherent(st)
+    if err:
+        return err
+    removed = 0
+    for (ev, val, kind) in evs:
+        expired = val is not None and val.isdigit() and int(val) < T
+        eph = 20000 <= kind < 30000
+        gone = ev["id"] not in after
+        removed += gone
+        if (expired or eph) and not gone:
+            return "kind %d expiration %r survived a pass at T=%d" % (kind, val, T)
+        if gone and not (expired or eph):
+            return "pass at T=%d removed kind %d with expiration %r" % (T, kind, val)
+    return "ok" if removed else "ok-nothing-collected"
